@@ -223,6 +223,21 @@ CLAIMED["C10"] = dict(
          "there (numerical; seeded change C10-1 is not detected), the bosonic Yukawa/non-Yukawa parts.",
     ref="3 C10")
 
+CLAIMED["C06"] = dict(
+    category="other",
+    technique="abstract interpretation in a parity domain {even, odd, mixed, unknown} over symbolically folded "
+              "terms (model getters inlined down to the stored parameters)",
+    text="For every contribution that does not read a mixing matrix -- the tan(beta)-resummation factors "
+         "Delta_mu, Delta_tau, Delta_b, the leading-log one- and two-loop approximations, the logarithm scale, "
+         "delta_g/delta_yuk/delta_tan_beta, tan(alpha) (27 functions, 32 overloads) -- the folded formula is "
+         "even under the joint sign flip of mu, M1, M2, M3, A_f/T_f: products multiply parities, sums need equal "
+         "parities, |x| and x^2 are even, comparisons/min/max/log of a sign-changing quantity are definite "
+         "violations. This holds for all parameter values and all sign combinations at once.",
+    note=TRUST + "Masses (eigenvalues) are taken as invariant. NOT decided (listed in the evidence): the exact "
+         "one-loop, photonic and 2L(a) contributions, whose invariance rests on how the eigen-solver absorbs "
+         "the signs into the mixing matrices.",
+    ref="3 C06")
+
 NOT_APPLICABLE = {
     "C03": "numerical agreement of one-loop results with an independent higher-precision evaluation over all "
            "parameter points: depends on eigen-decomposition values; no code-shape clause of its own "
